@@ -1,6 +1,7 @@
 package props
 
 import (
+	"bytes"
 	"encoding/binary"
 	"fmt"
 	"strings"
@@ -30,6 +31,7 @@ const (
 	hHeaderSurgery
 	hFaithful
 	hInitCorrupt
+	hThirdParty // traffic of a registered third-party agent type (Service block), faithful or mutated
 	hKinds
 )
 
@@ -75,6 +77,8 @@ type c01State struct {
 	taskN int
 	recorded [][]byte // valid requests seen so far (for mutation / replay)
 	child *world.Demon
+	svc      *world.ServiceClient // a service that registered one agent type and answers at once
+	svcMagic uint32
 }
 
 func (st *c01State) outstanding(d *world.Demon) uint32 {
@@ -161,6 +165,18 @@ func (c01) Exec(p *Plan, dir string) *Result {
 	}
 	if p.Knob("pivot", 0) == 1 {
 		st.child = linkChild(w, w.Demons[0], st.outstanding(w.Demons[0]), 0x0a0b0c0d, r)
+	}
+	if p.Cfg.Service != nil {
+		sc := w.NewServiceClient("svc")
+		if sc.Connect() && sc.Register(p.Cfg.Service.Password) {
+			st.svcMagic = 0x41414242
+			sc.RegisterAgent(world.ServiceAgentSpec{Name: "ThirdParty", Magic: st.svcMagic, Author: "verif", Description: "third-party agent",
+				Formats: [][2]string{{"Executable", ".bin"}}, SupportedOS: []string{"linux"}})
+			w.Sim.Settle()
+			sc.AnswerInstantly(func(payload []byte) []byte { return append([]byte("svc:"), payload...) })
+			st.svc = sc
+			res.Probe("third-party-agent-type-registered")
+		}
 	}
 	w.Sim.SetPolicy(p.Policy)
 	res.FP(p.Policy.Name, len(w.Demons), p.Cfg.Service != nil, len(p.Cfg.External), st.child != nil)
@@ -270,6 +286,16 @@ func (st *c01State) build(a Action) (body []byte, invalid bool, label string) {
 	}
 	d := direct[a.B%len(direct)]
 	switch a.A % hKinds {
+	case hThirdParty:
+		if st.svc == nil {
+			b := randBytes(r, 24)
+			return b, st.classify(b), "random-bytes"
+		}
+		b := world.ServiceAgentFrame(st.svcMagic, uint32(0x6000+r.Intn(1<<16)), randBytes(r, r.Intn(200)))
+		if r.Intn(3) == 0 {
+			b = mutate(r, b)
+		}
+		return b, st.classify(b), "third-party"
 	case hRandomBytes:
 		n := []int{0, 1, 3, 4, 8, 11, 12, 19, 20, 21, 64, 300, 4096, 65536}[r.Intn(14)]
 		if r.Intn(40) == 0 {
@@ -456,7 +482,8 @@ func (st *c01State) classify(b []byte) bool {
 	id := binary.BigEndian.Uint32(b[8:])
 	cmd := binary.BigEndian.Uint32(b[12:])
 	if magic != world.DemonMagic {
-		return true // no service agent type is registered in these runs
+		// traffic of the registered third-party agent type is valid whatever follows the header
+		return !(st.svc != nil && magic == st.svcMagic)
 	}
 	known := false
 	for _, a := range st.w.TS.Agents.Agents {
@@ -566,6 +593,14 @@ func (st *c01State) request(a Action) {
 	case 200:
 		res.Probe("protocol-replies")
 		rb := call.Rec.Body.Bytes()
+		if strings.HasPrefix(label, "third-party") && st.svc != nil && len(body) >= 8 && binary.BigEndian.Uint32(body[4:]) == st.svcMagic {
+			// answered by the service that registered this agent type: its reply is relayed as is
+			if !bytes.HasPrefix(rb, []byte("svc:")) {
+				res.Violate("C01", "reply", "third-party-answer-not-relayed", fmt.Sprintf("%s was answered with %d bytes that are not the service's answer", desc, len(rb)), w.Sim)
+			}
+			res.Probe("third-party-replies")
+			break
+		}
 		if len(rb) != 4 {
 			if _, err := world.ParseTasks(rb, make([]byte, 32), make([]byte, 16)); err != nil {
 				res.Violate("C01", "reply", "malformed-protocol-reply", fmt.Sprintf("%s was answered with 200 and a body that is neither a registration reply nor a task stream: %v", desc, err), w.Sim)
